@@ -466,6 +466,40 @@ fn exec_many_inputs(n: usize, scheme: u8, seed: u64, obs: &mut Obs) -> Vec<Viola
             return v;
         }
     }
+    // distinct names are distinct keys: a million of them in the key type's own hash set (whatever a name is keyed
+    // by internally, two different names must never become one entry)
+    {
+        const MANY: usize = 1_000_000;
+        let mut set: std::collections::HashSet<VariableName> = std::collections::HashSet::with_capacity(MANY);
+        let mut clash: Option<(String, String)> = None;
+        let mut by_key: std::collections::HashMap<VariableName, String> = std::collections::HashMap::new();
+        let mut strings: std::collections::HashSet<String> = std::collections::HashSet::with_capacity(MANY);
+        for i in 0..MANY {
+            let name = many_name(scheme, i, seed ^ 0x77);
+            if !strings.insert(name.clone()) {
+                continue; // (the harness produced the same string twice: not a second name)
+            }
+            let key = VariableName::from(name.as_str());
+            if !set.insert(key.clone()) {
+                // (schemes 0 and 2 cannot repeat a string; scheme 1 appends the index)
+                clash = Some((name, String::new()));
+                break;
+            }
+            if i < 50_000 {
+                by_key.insert(key, name);
+            }
+        }
+        obs.hit("probe.one-million-distinct-input-names-as-keys");
+        if let Some((name, _)) = clash {
+            let other = by_key.get(&VariableName::from(name.as_str())).cloned().unwrap_or_else(|| "an earlier, different name".into());
+            v.push(Violation::new(
+                "push-evaluation-independent-of-declaration-order",
+                "many-inputs:distinct-names-collide".to_string(),
+                format!("the input names `{name}` and `{other}` are different strings but compare equal as `VariableName`s (one map entry for two inputs)"),
+            ));
+            return v;
+        }
+    }
     g.shuffle(&mut names);
     let declared: Vec<(String, Lit)> = names.iter().map(|(s, i)| (s.clone(), Lit::Int(*i))).collect();
     g.shuffle(&mut names);
@@ -851,6 +885,7 @@ impl Check for C16 {
             "fault.interleaved-history",
             "probe.evaluation-panics(undeclared-input)-compared-across-states",
             "probe.evaluation-with>=8000-distinct-inputs",
+            "probe.one-million-distinct-input-names-as-keys",
         ]
     }
 
